@@ -5,6 +5,7 @@ import (
 	"encoding/json"
 	"fmt"
 	"os"
+	"runtime"
 	"runtime/debug"
 	"sync"
 	"sync/atomic"
@@ -106,6 +107,15 @@ func workerMain() {
 			Scratch: scratch,
 			Fatal:   job.Fatal,
 			Journal: func(key string) {
+				// a step that decoded garbage may have left gigabytes of dead heap
+				// behind; under the address-space limit the NEXT step would then die
+				// for it. Start every journaled step with a small heap.
+				var ms runtime.MemStats
+				runtime.ReadMemStats(&ms)
+				if ms.HeapAlloc > 256<<20 || ms.HeapSys-ms.HeapReleased > 1<<30 {
+					runtime.GC()
+					debug.FreeOSMemory()
+				}
 				curKey.Store(key)
 				send(out, &Msg{ID: job.ID, Journal: key})
 			},
